@@ -822,7 +822,7 @@ Proof.
   - destruct Hrel as (Hn & Hrel). destruct (IH _ _ Hrel Hch Hres') as [I1 I2]; [now rewrite Hn, Ha|].
     split; [lia|exact I2].
   - split; [lia|now rewrite Ha].
-  - destruct Hrel as (r & Hn & _ & Hrel).
+  - destruct Hrel as (r & _ & Hn & _ & Hrel).
     destruct (IH _ _ Hrel Hch Hres') as [I1 I2].
     { replace (pl_next p) with (pl_addr p + (pl_next p - pl_addr p)) by lia. rewrite Z.add_mod, Hn, Ha, Hmod by lia.
       reflexivity. }
@@ -1332,7 +1332,7 @@ Proof.
         apply Hc. apply (IH (Lpre ++ [p]) r st' st1 (code_end (pl_next p) L) EL' Hrun Hclose Hrel); [| |exact Hres'|exact J'];
           rewrite Hcur'; [assumption|reflexivity].
     + (* reserve *)
-      destruct Hrel as (r & Hn & -> & Hrel).
+      destruct Hrel as (r & _ & Hn & -> & Hrel).
       cbn [resolve_loop bind] in Hrun.
       destruct (resolve_step ww ver true st (LReserve (pl_next p))) as [st'| |] eqn:Estep; try discriminate.
       cbn [resolve_step] in Estep.
@@ -1483,10 +1483,10 @@ Qed.
 (* C02_wflip_chain_invariant *)
 Theorem assemble_chains ww ver P segs words lbls :
   assemble_model ww ver true P = Ok (segs, words, lbls) ->
-  lexical_labels P = true -> reserves_nonneg ww P lbls = true ->
+  lexical_labels P = true ->
   forall L, place ww (lookup lbls) P 0 = Some L -> Forall (wflip_chain_ok ww (image_of segs words) L lbls) L.
 Proof.
-  unfold assemble_model. intros H Hlex Hres L HplL.
+  unfold assemble_model. intros H Hlex L HplL.
   pose proof (wd_pos' ww) as Hw.
   destruct (resolve_macros ww P) as [[ops l0]| |] eqn:Er; cbn [bind] in H; try discriminate.
   destruct (labels_resolve ww ver true ops l0) as [stF| |] eqn:El; cbn [bind] in H; try discriminate.
@@ -1506,10 +1506,7 @@ Proof.
   destruct (resolve_macros_spec ww P _ l0 (b_labels stF) Er Hlex Hext) as (L' & r & Hpl & Hops & Hrel & Hlab & _).
   rewrite HplL in Hpl. injection Hpl as <-.
   injection Hops as Hce Hr0. subst r.
-  assert (Hresn : Forall res_nonneg L).
-  { unfold reserves_nonneg in Hres. rewrite HplL in Hres. apply Forall_forall. intros p Hp.
-    rewrite forallb_forall in Hres. specialize (Hres _ Hp). unfold res_nonneg.
-    destruct (pl_stmt p); auto. now apply Z.leb_le. }
+  pose proof (ops_rel_res_nonneg ww L r0 Hrel) as Hresn.
   pose proof (place_chain ww _ _ _ _ HplL) as Hchain.
   assert (Hmod0 : 0 mod wd ww = 0) by (apply Z.mod_0_l; lia).
   destruct (code_end_facts ww L r0 0 Hrel Hchain Hresn Hmod0) as [_ Hwsm].
@@ -1532,9 +1529,9 @@ Qed.
 (* C02_sound: the image the current assembler produces for a macro-free program is the program's denotation *)
 Theorem assemble_sound ww ver P segs words lbls :
   assemble_model ww ver true P = Ok (segs, words, lbls) ->
-  lexical_labels P = true -> reserves_nonneg ww P lbls = true ->
+  lexical_labels P = true ->
   Denotes ww (image_of segs words) P lbls.
 Proof.
-  intros H Hlex Hres. apply (assemble_sound_modulo_chains ww ver P segs words lbls H Hlex Hres).
+  intros H Hlex. apply (assemble_sound_modulo_chains ww ver P segs words lbls H Hlex).
   now apply (assemble_chains ww ver).
 Qed.
